@@ -1,5 +1,5 @@
 (* Props/C08.v — any well-formed third-party tape is read exactly; list and extract agree. *)
-Require Import PyBase Tape K7 TapeProofs.
+Require Import PyBase Tape K7 TapeProofs TapeStateProofs EffectState TapeForeignState.
 Open Scope Z_scope.
 
 (* K7 raw files: [raw] follows the MO5 format and encodes [files] (Spec/K7.v): idle gaps of any
@@ -41,3 +41,29 @@ Example C08_example_lines : o_lines (tar_list false ex_raw) = [[65;46;66;65;83];
 Proof. vm_compute. reflexivity. Qed.
 Example C08_example_ok : forallb k7_file_ok [ex_f1; ex_f2] = true.
 Proof. vm_compute. reflexivity. Qed.
+
+(* from effects to the state of the destination: whatever it held before (fs0 is arbitrary), once
+   the tape is extracted every file it encodes is read back with exactly its bytes under its
+   name, provided no two files of the tape claim one path (the last one would win) *)
+Theorem C08_directory_after_extract :
+  forall (raw : list Z) (files : list k7_file) (v : bool) (into : option (list Z)) (arch : list Z) (fs0 : fsmap),
+  K7 raw files -> forallb k7_file_ok files = true ->
+  forallb (no_nul_path (TapeProofs.target_of into arch)) files = true ->
+  NoDup (write_paths (o_effects (tar_extract v into arch raw))) ->
+  forall f : k7_file, In f files ->
+    fs_read (apply_effects fs0 (o_effects (tar_extract v into arch raw)))
+            (path_join (TapeProofs.target_of into arch) (safe_label (k7_leader f))) = Some (k_content f).
+Proof. exact tape_third_party_directory. Qed.
+Print Assumptions C08_directory_after_extract.
+
+(* on the example tape: distinct destinations, and the data-less file B. replaces a longer file
+   that lay there before *)
+Example C08_example_overwrite :
+  let es := o_effects (tar_extract false None [100;47;116;46;107;55] ex_raw) in
+  NoDup (write_paths es) /\
+  fs_read (apply_effects [([100;47;66;46], [9;9;9;9])] es) [100;47;66;46] = Some [] /\
+  fs_read (apply_effects [] es) [100;47;65;46;66;65;83] = Some [1;1;1;60;90;7].
+Proof.
+  vm_compute. split; [|split; reflexivity].
+  repeat constructor; cbn; intuition discriminate.
+Qed.
